@@ -223,6 +223,37 @@ def _flat_targets(ctx, bind_view):
     return bind_view.parent.t, (list(targets.items) if isinstance(targets, (VTuple, VList)) else None)
 
 
+def _flat_of(c, bind_view, expand):
+    """flat(bind) as a list of terms: [parent] ++ flat(t) for each target; a target is expanded iff it is one of the binds in
+    `expand` (term -> view) whose own targets are a display - every other element (abstract template, Partial) is an atom"""
+    ctx = c.ctx
+    p, ts = _flat_targets(ctx, bind_view)
+    if ts is None:
+        return None
+    out = [p]
+    for t in ts:
+        tt = z3.simplify(_tm(ctx, t))
+        hit = [v for k, v in expand if z3.eq(z3.simplify(k), tt)]
+        if hit:
+            sub = _flat_of(c, hit[0], expand)
+            if sub is None:
+                return None
+            out += sub
+        else:
+            out.append(tt)
+    return out
+
+
+def _denotes(c, result, expected_terms, expand):
+    """result is a NEW bind whose denotation flat(result) is exactly the expected list of templates"""
+    ctx = c.ctx
+    rv = c.view_term(result.t, BindT, c.new_heap)
+    got = _flat_of(c, rv, expand)
+    if got is None or len(got) != len(expected_terms):
+        return False
+    return c.And(rv.cls_is(PM + ":PartialBind"), Z.Val.id(result.t) >= ctx.alloc0, *[a == b for a, b in zip(got, expected_terms)])
+
+
 def _is_new_bind(c, result, parent_t, target_terms):
     """result is a PartialBind created by this call holding exactly (parent, *targets)"""
     ctx = c.ctx
@@ -310,6 +341,10 @@ def _mk_bind_rshift(kind, k):
         def setup(ctx, I, bound):
             I.setattr(bound["self"], "targets", VTuple([_sym_obj(ctx, "target%d" % j, Tmpl) for j in range(k)]))
             I.setattr(bound["self"], "parent", _sym_obj(ctx, "parent", PartialT))
+            if kind == "bind":
+                ctx.assume(Z.Val.id(bound["self"].t) != Z.Val.id(bound["other"].t))     # a bind applied to ANOTHER bind
+                I.setattr(bound["other"], "targets", VTuple([_sym_obj(ctx, "other_target%d" % j, Tmpl) for j in range(2)]))
+                I.setattr(bound["other"], "parent", _sym_obj(ctx, "other_parent", PartialT))
         setup = staticmethod(setup)
 
         def requires(c, self, other):
@@ -326,7 +361,13 @@ def _mk_bind_rshift(kind, k):
             cons = ctx.ghost.get("c04_constructs", [])
             outs = ctx.ghost.get("c04_construct_outcomes", [])
             binds = ctx.ghost.get("c04_bind_outcomes", [])
-            if kind in ("pending", "bind", "object"):
+            if kind == "bind":
+                op, ots = _flat_targets(ctx, c.old(other))
+                expected = [p] + ts + [op] + [_tm(ctx, x) for x in ots]
+                return {"nothing-is-constructed": c.no_events(),
+                        "result-denotes-flat-of-the-bind-followed-by-flat-of-other": _b(_denotes(c, result, expected, [(other.t, c.new(other))])),
+                        "neither-bind-is-modified": c.And(c.unchanged(self, "targets", "parent"), c.unchanged(other, "targets", "parent"))}
+            if kind in ("pending", "object"):
                 return {"nothing-is-constructed": c.no_events(), "result-denotes-the-binds-templates-then-other": _b(_is_new_bind(c, result, p, ts + [other.t])),
                         "the-bind-itself-is-not-modified": c.unchanged(self, "targets", "parent")}
             if kind == "leaf":
